@@ -4,6 +4,7 @@ import (
 	"encoding/base64"
 	"encoding/json"
 	"fmt"
+	"regexp"
 	"sort"
 	"strings"
 	"time"
@@ -33,6 +34,30 @@ type c03Dims struct {
 type c03Case struct {
 	D   c03Dims `json:"dims"`
 	Cfg int     `json:"cfg"` // 0 response-signed, 1 assertion-signed, 2 skip-signature; +3: no IdP issuer configured
+	// Shadow: after signing, declarations of unused namespace prefixes named like the checked
+	// attributes and holding the EXPECTED values are added behind the real attributes
+	// (xmlns:Destination, xmlns:Version on the root, xmlns:Recipient and xmlns:NotOnOrAfter on
+	// SubjectConfirmationData, xmlns:Value on StatusCode); they are not attributes
+	Shadow bool `json:"xmlns_shadow,omitempty"`
+}
+
+var c03ShadowRe = regexp.MustCompile(`(<saml:SubjectConfirmationData[^>]*?)(/?>)`)
+var c03ShadowStatusRe = regexp.MustCompile(`(<samlp:StatusCode[^>]*?)(/?>)`)
+
+func c03ShadowEdit(enc string) string {
+	raw, err := base64.StdEncoding.DecodeString(enc)
+	if err != nil {
+		return enc
+	}
+	x := string(raw)
+	gt := strings.Index(x, ">")
+	if gt > 0 && x[gt-1] == '/' {
+		gt--
+	}
+	x = x[:gt] + ` xmlns:Destination="` + world.ACS + `" xmlns:Version="2.0"` + x[gt:]
+	x = c03ShadowRe.ReplaceAllString(x, `${1} xmlns:Recipient="`+world.ACS+`" xmlns:NotOnOrAfter="2039-01-01T00:00:00Z"${2}`)
+	x = c03ShadowStatusRe.ReplaceAllString(x, `${1} xmlns:Value="`+idp.StatusSuccess+`"${2}`)
+	return base64.StdEncoding.EncodeToString([]byte(x))
 }
 
 var c03CfgNames = []string{"response-signed", "assertion-signed", "skip-signature", "response-signed/no-idp-issuer", "assertion-signed/no-idp-issuer", "skip-signature/no-idp-issuer", "response-signed/encrypted-assertions", "assertion-signed/encrypted-assertions", "skip-signature/encrypted-assertions", "skip-signature/encrypted-assertions/no-idp-issuer"}
@@ -304,6 +329,9 @@ func c03FaultClass(v []c03Viol) string {
 func c03Exec(c c03Case) (keys []string, detail string, class string) {
 	spec := c03Spec(c.D, c.Cfg)
 	enc := idp.RenderResponse(spec)
+	if c.Shadow {
+		enc = c03ShadowEdit(enc)
+	}
 	v := c03Model(c.D, c.Cfg)
 	conf := c03Conf(c.Cfg)
 	_, r1 := validateResponse(conf.Build(), enc)
@@ -316,7 +344,7 @@ func c03Exec(c c03Case) (keys []string, detail string, class string) {
 		c03CfgNames[c.Cfg], c.D, whats, r1.Accepted(), r1.Err.Type, r1.Err.Key, r1.Err.Attr, r1.Err.Text, r1.Panic, r2.Accepted(), r2.Err.Type, r2.Err.Key, r2.Err.Text, r2.Err.Wrapped)
 	fc := c03FaultClass(v)
 	results := []callResult{r1, r2}
-	if c.Cfg < 6 || c03SkipEnc(c.Cfg) {
+	if (c.Cfg < 6 || c03SkipEnc(c.Cfg)) && !c.Shadow { // (with shadow declarations the caller's own decoding is the caller's business)
 		// third entry point: the exported Validate on a Response the caller decoded itself
 		// (encoding/xml into types.Response, nothing decrypted, signatures not looked at)
 		raw, _ := base64.StdEncoding.DecodeString(enc)
@@ -400,13 +428,16 @@ func c03Cases(thorough bool, stop func() bool) (cases []c03Case, shapes int, bou
 	for _, d := range dims {
 		for cfg := 0; cfg < len(c03CfgNames); cfg++ {
 			cases = append(cases, c03Case{D: d, Cfg: cfg})
+			if cfg < 3 {
+				cases = append(cases, c03Case{D: d, Cfg: cfg, Shadow: true})
+			}
 		}
 	}
 	return cases, len(dims), bounds, complete
 }
 
 func c03Run(r *mc.Run) {
-	r.Rule = "deviation-bounded DFS over profile-fault dimensions (Response: version, destination, issuer, status; per assertion position: issuer, subject structure, recipient, NotOnOrAfter) for n=0..3 assertions x 10 configurations (Response-signed, assertion-signed, skip-signature, each with and without a configured IdP issuer; Response- and assertion-signed with every assertion encrypted; skip-signature with every assertion encrypted, where nothing is decrypted and the Response must be rejected for having no assertion, with and without a configured issuer) x 3 entry points (ValidateEncodedResponse, RetrieveAssertionInfo, and the exported Validate on a types.Response the caller decoded with encoding/xml), each case judged on fresh instances and again, in sequence on one goroutine, on long-lived instances (one per configuration); non-trivial = the document got past decoding and signature processing into the profile validation (error is nil or a typed validation error); distinct = distinct (dims,cfg)"
+	r.Rule = "deviation-bounded DFS over profile-fault dimensions (Response: version, destination, issuer, status; per assertion position: issuer, subject structure, recipient, NotOnOrAfter) for n=0..3 assertions x 10 configurations (Response-signed, assertion-signed, skip-signature, each with and without a configured IdP issuer; Response- and assertion-signed with every assertion encrypted; skip-signature with every assertion encrypted, where nothing is decrypted and the Response must be rejected for having no assertion, with and without a configured issuer) (the first three configurations also with declarations of unused namespace prefixes named like the checked attributes, holding the expected values, added after signing) x 3 entry points (ValidateEncodedResponse, RetrieveAssertionInfo, and the exported Validate on a types.Response the caller decoded with encoding/xml), each case judged on fresh instances and again, in sequence on one goroutine, on long-lived instances (one per configuration); non-trivial = the document got past decoding and signature processing into the profile validation (error is nil or a typed validation error); distinct = distinct (dims,cfg)"
 	cases, shapes, bounds, complete := c03Cases(r.Thorough(), r.Expired)
 	if !complete {
 		r.Cap("enumeration stopped by deadline")
@@ -423,7 +454,7 @@ func c03Run(r *mc.Run) {
 		r.Transition(2)
 		r.Bucket(class)
 		if !strings.Contains(detail, "ValidateEncodedResponse: accepted=false err=*errors") {
-			r.Nontrivial(fmt.Sprintf("%+v/%d", c.D, c.Cfg))
+			r.Nontrivial(fmt.Sprintf("%+v/%d/%v", c.D, c.Cfg, c.Shadow))
 		}
 		if i%997 == 0 {
 			r.Sample(map[string]interface{}{"case": c, "observed": detail})
